@@ -35,6 +35,7 @@ type histCfg struct {
 	mid                  []string // ops allowed at the first wager request: arrive addon-part rebuy-part leave-sitout leave-part none
 	finish               []string // settlement-finished policies available: all none first
 	newStack             int64
+	race                 *raceCfg // one operation issued concurrently with the response that ends hand 1 (racing settlement / continue)
 	panicsAreDiagnostics bool // a panic in a system goroutine is recorded as a diagnostic, not attributed to this property
 }
 
@@ -58,6 +59,75 @@ type hist struct {
 	openedUpdate    map[int]*pt.TableBlindState // hand -> blind level set from inside its opened callback
 	openedDone      map[int]bool
 	breakDuringWait bool // a break was applied after the next hand had been set up (open-game wait)
+}
+
+// raceCfg: at the nth wager request of hand 1 (the one whose answer ends the hand) the answer and one
+// external operation run as two threads in an exploration window (fine mode), so the operation can land
+// between any two statements of the hand's settlement and the continue step, which the engine runs in the
+// hand's updater goroutine without the engine lock.
+type raceCfg struct {
+	nth int
+	op  string // rebuy:<id> | addon:<id> | arrive | sitout | leave:<id>
+}
+
+func (h *hist) race(rc *raceCfg, pol *HandPolicy) string {
+	td, env := h.td, h.td.env
+	p := td.pending()
+	if p.Kind != "wager" {
+		return "race:no-wager-request"
+	}
+	cp := p.GS.GetPlayer(p.GS.Status.CurrentPlayer)
+	a, amt := pol.Line(td, p.GS, cp)
+	who := p.Players[0]
+	kind, arg, _ := strings.Cut(rc.op, ":")
+	seat, newID := -1, ""
+	if kind == "arrive" || kind == "sitout" {
+		free := h.freeSeats()
+		if len(free) == 0 {
+			return "race:full"
+		}
+		seat, newID = free[0], h.newID()
+	}
+	var bank int64
+	if kind == "leave" {
+		if pl := td.player(arg); pl != nil {
+			bank = pl.Bankroll
+		}
+	}
+	env.WindowBegin()
+	tA := env.Go("answer:"+a, true, func() { td.act(who, a, amt) })
+	tB := env.Go("op:"+rc.op, true, func() {
+		switch kind {
+		case "rebuy":
+			if td.reserve(arg, -1, h.cfg.newStack) == nil {
+				h.in += h.cfg.newStack
+			}
+		case "addon":
+			if td.addon(arg, 3) == nil {
+				h.in += 3
+			}
+		case "arrive", "sitout":
+			if td.reserve(newID, seat, h.cfg.newStack) == nil {
+				h.in += h.cfg.newStack
+				if kind == "arrive" {
+					td.join(newID)
+				}
+			}
+		case "leave":
+			if td.leave(arg) == nil {
+				h.out += bank
+				// settleGame / continueGame index the player list while the departure shrinks it: whatever goes
+				// wrong afterwards in such an execution is one finding (see known_findings.json, C08)
+				h.taint = "after-bystander-left-while-hand-settles"
+			}
+		default:
+			panic("unknown race op " + rc.op)
+		}
+	})
+	env.Join(tA, tB)
+	env.WindowEnd()
+	env.Settle()
+	return fmt.Sprintf("race[%s(%s) || %s]", a, who, rc.op)
 }
 
 var lineByName = map[string]Line{"foldout": lineFoldOut, "checkdown": lineCheckDown, "allin": lineAllIn, "explore": lineExplore}
@@ -368,6 +438,10 @@ func runHist0(prefix []int, hc *histCfg, vcfg vrt.Config, mk func(h *hist) []Mon
 			}
 		}
 		cfg.atWager = func(td *TD, hand int, nth int) {
+			if hc.race != nil && hand == 1 && nth == hc.race.nth {
+				h.events = append(h.events, h.race(hc.race, &cfg.pol))
+				return
+			}
 			if nth != 0 || h.midDone[hand] {
 				return
 			}
